@@ -4,7 +4,7 @@
    meaning in the group's configurations.                                          *)
 EXTENDS SigmaStr
 
-MkK(esc, wm, ws, add, filt, quote) == [esc |-> esc, wm |-> wm, ws |-> ws, add |-> add, filt |-> filt, quote |-> quote]
+MkK(esc, wm, ws, add, filt, quote) == [esc |-> esc, wm |-> wm, ws |-> ws, add |-> add, filt |-> filt, quote |-> quote, cq |-> FALSE]
 Configs == <<
   MkK(92, <<42>>, <<63>>, {92}, {}, 34),              \* 1  backslash, * ?, always quoted with "
   MkK(92, <<42>>, <<63>>, {92, 58}, {38}, 34),        \* 2  extra escaped ':' and filtered '&'
@@ -13,11 +13,12 @@ Configs == <<
   MkK(92, <<42>>, <<>>, {92}, {}, 34),                \* 5  no single-character wildcard in the target
   MkK(92, <<42>>, <<63>>, {92}, {38, 58}, 34),        \* 6  filter only
   MkK(92, <<42>>, <<63>>, {92, 32}, {}, NONE),        \* 7  unquoted literals, space escaped
-  MkK(92, <<42>>, <<63>>, {58}, {}, 34)               \* 8  NOT well-formed: the escape character itself is not among the
+  MkK(92, <<42>>, <<63>>, {58}, {}, 34),              \* 8  NOT well-formed: the escape character itself is not among the
                                                       \*    additionally escaped characters (as in the bundled test backend)
+  [MkK(92, <<42>>, <<63>>, {92}, {}, 34) EXCEPT !.cq = TRUE]   \* 9  conditional quoting: only values with a blank are quoted
 >>
 Groups == <<
-  [ks |-> <<1, 2, 5, 6, 7, 8>>, alpha |-> {92, 42, 63, 34, 58, 38, 97, 32}],
+  [ks |-> <<1, 2, 5, 6, 7, 8, 9>>, alpha |-> {92, 42, 63, 34, 58, 38, 97, 32}],
   [ks |-> <<3>>,             alpha |-> {94, 46, 42, 63, 34, 97, 92}],
   [ks |-> <<4>>,             alpha |-> {92, 37, 95, 39, 42, 63, 97}]
 >>
